@@ -357,7 +357,23 @@ def _nondisk_case(desc, ctx):
         return
     ctx.cls("nondisk:chi=%d" % z["topo"]["chi"])
     ok, m = ctx.call("build", build.surface, z["V"], z["F"], monitor="reject")
-    ok, emb = ctx.call("TutteEmbedding", lambda: M.parametrization.TutteEmbedding(m, "circle", verbose=False), monitor="reject")
+    # every option combination must reject: target shape (a caller-supplied target included), weights, storage
+    rng = random.Random(desc["seed"] ^ 0x17d)
+    mode = ["circle", "square", "custom"][desc["seed"] % 3]
+    kwargs = {}
+    if mode == "custom":
+        nbv = len({v for l in z["topo"]["border_loops"] for v in l})
+        if nbv >= 3:
+            t = np.linspace(0.0, 2 * math.pi, nbv, endpoint=False)
+            kwargs["custom_boundary"] = np.stack([np.cos(t), np.sin(t)], axis=1)
+        else:
+            mode = "circle"
+    if rng.random() < 0.5:
+        kwargs["save_on_corners"] = rng.random() < 0.5
+    cotan = rng.random() < 0.5
+    ctx.cls("nondisk:target=%s" % mode)
+    ctx.cls("nondisk:loops=%d" % len(z["topo"]["border_loops"]))
+    ok, emb = ctx.call("TutteEmbedding", lambda: M.parametrization.TutteEmbedding(m, "circle" if mode == "custom" else mode, cotan, verbose=False, **kwargs), monitor="reject")
     ok, _ = ctx.call("run_nondisk", emb.run, expect=(Exception,), monitor="reject")
     ctx.check(not ok, "reject", "euler", "non_disk_not_rejected", "a surface whose Euler characteristic is not 1 was not rejected", chi=z["topo"]["chi"])
     ctx.nontrivial(stable_hash([len(z["V"]), z["F"], "reject"]))
